@@ -18,6 +18,7 @@ RULE = ('(a) rule-directed templates: one family per rewrite rule of _expr_simp 
         '8-bit two-variable templates in the thorough tier (512 in quick). A case = canonical input tree; non-trivial = the '
         'simplified tree differs structurally from the input (some rule fired).')
 RULE += ' Round 7: sibling terms identical except for nested constants that agree modulo 2^61-1, in the low half, or in all bits but the top one.'
+RULE += ' Round 8: mask-then-shift and shift-then-mask with every mask 0..255 x count 0..8 (8 bits) and masks around powers of two x counts 0..13, 31, 32 (32 bits); compositions in which two slices of one source that are consecutive in the source are separated by another piece; compositions with the same first component and a different later one under each operator.'
 ASSUMPTIONS = ['irsem is the meaning of the IR (self-test at setup)', 'termination is decided as bounded progress: at most 2000+400*nodes calls of _expr_simp per top-level call']
 
 _counter = {'n': 0, 'limit': 0}
